@@ -51,7 +51,7 @@ class Sc:
             self.next_apay += 1
             return self.next_apay
         self.next_pay += 1
-        if self.next_pay >= 4000:
+        if self.next_pay >= 60000:
             self.next_pay = 2
         return self.next_pay
 
@@ -105,12 +105,12 @@ def driven_skeleton(sc, ctx_flags=0):
                 ("fd_reg", DRV, KICK, 0, 1), ("start", DRV)]
 
 
-def driven_finish(sc, steps, quit_code=None, rng=None, teardown=True, slots=None, drop_order=None):
+def driven_finish(sc, steps, quit_code=None, rng=None, teardown=True, slots=None, drop_order=None, last_ops=()):
     """install steps into the driver's handler scripts and append loop + teardown to main"""
     code = quit_code if quit_code is not None else (rng.randrange(0, 200) if rng else 0)
     for k, ops in enumerate(steps):
         sc.cb(DRV, "evt", k, ops)
-    sc.cb(DRV, "evt", len(steps), [("ctx_quit", code)])
+    sc.cb(DRV, "evt", len(steps), list(last_ops) + [("ctx_quit", code)])
     sc.cb(DRV, "evt", "*", [("ctx_quit", code)])
     sc.main.append(("LOOP",))
     sc.meta["quit_code"] = code
@@ -337,7 +337,7 @@ MIXED_W = dict(lifecycle=10, tell=8, publish=8, broadcast=4, pill=2, sub=8, unsu
                batch=2, stash=3, become=3, ctx=2, retain=3, misc=2, errno=2, sleep=2, dereg=1, tb=0, thresh=0)
 
 
-def gen_mixed(seed, weights=None, nmods=None, nsteps=None, opts=None, mode="loop"):
+def gen_mixed(seed, weights=None, nmods=None, nsteps=None, opts=None, mode="loop", last_ops_fn=None):
     """broad random scenario used by C04 and as a base for the other profiles"""
     r = random.Random(seed)
     sc = Sc(mode, "mixed seed=%d" % seed)
@@ -390,7 +390,7 @@ def gen_mixed(seed, weights=None, nmods=None, nsteps=None, opts=None, mode="loop
             late = [i for i in range(1, nm + 1)]
             ops.append(("reg", r.choice(late)))      # may be a refused re-registration (slot reuse guard in harness)
         steps.append(ops)
-    driven_finish(sc, steps, rng=r)
+    driven_finish(sc, steps, rng=r, last_ops=(last_ops_fn(p, r) if last_ops_fn else ()))
     finalize_main(sc)
     return sc
 
@@ -599,5 +599,152 @@ def gen_lifecycle(seed, style=None):
         main_dispatch_finish(sc, steps, rng=r)
     else:
         driven_finish(sc, steps, rng=r)
+    finalize_main(sc)
+    return sc
+
+
+MSG_W = dict(lifecycle=8, tell=22, publish=22, broadcast=8, pill=3, sub=14, unsub=4, fd=2, tmr=0, sgn=0, task=0, batch=1, stash=0,
+             become=0, ctx=1, retain=2, misc=2, errno=1, sleep=1, dereg=1, tb=0, thresh=0)
+
+
+def gen_messaging(seed, mode="loop"):
+    """C02/C08: many-to-many traffic with literal and regular-expression subscriptions, interleaved with state changes;
+    the last step sends and quits at once, so that messages are still pending when the loop stops (final flush)"""
+    def last_ops(p, r):
+        ops = []
+        for _ in range(r.randrange(0, 5)):
+            p.w = dict(tell=3, publish=3, broadcast=1)
+            ops += p.op("step")
+        return ops
+    r = random.Random(seed)
+    sc = gen_mixed(seed, weights=MSG_W, nmods=r.randrange(2, 7), opts=dict(p_autofree=0.35, p_sys=0.1, task_slots=[], p_modflags=0.15, p_oneshot=0.08),
+                   mode=mode, last_ops_fn=last_ops)
+    sc.note = "messaging seed=%d" % seed
+    return sc
+
+
+def driven_multi(sc, runs, between=None, rng=None, last_ops=None):
+    """several loop runs in one scenario: run i executes runs[i] as driver steps and quits; between[i] ops run from the
+    main script while the context is idle; the driver's invocation counter simply goes on across runs"""
+    k = 0
+    codes = []
+    for i, steps in enumerate(runs):
+        code = rng.randrange(0, 200) if rng else i
+        codes.append(code)
+        for ops in steps:
+            sc.cb(DRV, "evt", k, ops)
+            k += 1
+        sc.cb(DRV, "evt", k, list(last_ops[i] if last_ops else ()) + [("ctx_quit", code)])
+        k += 1
+        sc.main.append(("LOOP",))
+        if between and i < len(between):
+            sc.main += between[i]
+    sc.cb(DRV, "evt", "*", [("ctx_quit", 0)])
+    sc.meta["quit_codes"] = codes
+    slots = sorted(sc.mods)
+    order = list(slots)
+    if rng:
+        rng.shuffle(order)
+    for s_ in order:
+        sc.main.append(("dereg", s_))
+    sc.main.append(("ctx_deregister",))
+    sc.main.append(("RELEASE_ALL",))
+    if rng:
+        rng.shuffle(order)
+    for s_ in order:
+        sc.main.append(("obs_drop", s_))
+    for u in range(0, 16):
+        sc.main.append(("fd_close", u))
+    sc.main.append(("quiesce",))
+
+
+ORDER_W = dict(lifecycle=5, tell=26, publish=20, broadcast=8, pill=6, sub=10, unsub=2, fd=0, tmr=0, sgn=0, task=0, batch=6, stash=0,
+               become=0, ctx=0, retain=0, misc=1, errno=0, sleep=1, dereg=0, tb=0, thresh=0)
+
+
+def gen_ordering(seed, mode="loop"):
+    """C08: several senders, one or two busy recipients, batching, pause/resume of the recipient, pills with traffic before
+    and after, sends followed at once by quit, two loop runs (events left over in a batch when the first run stops)"""
+    r = random.Random(seed * 13 + 1)
+    sc = Sc(mode, "ordering seed=%d" % seed)
+    driven_skeleton(sc)
+    nm = r.randrange(2, 6)
+    for i in range(1, nm + 1):
+        sc.mod(i, "o%d" % i, 0, r.choice([0, 4, 6, 7]))
+        for k in ("eval", "start", "stop"):
+            sc.cb(i, k, "*", [], ret=1)
+        sc.main += [("reg", i), ("start", i)]
+    p = Prog(r, sc, ORDER_W, nm, dict(p_autofree=0.2, p_sys=0.3, task_slots=[], p_oneshot=0.0))
+    for _ in range(r.randrange(2, 7)):
+        p.w = dict(sub=1)
+        sc.main += p.op("idle")
+    p.w = dict(ORDER_W)
+    for i in range(1, nm + 1):
+        for n in range(r.randrange(0, 5)):
+            sc.cb(i, "evt", n, sum((p.op("cb", i) for _ in range(r.randrange(0, 3))), []))
+        sc.cb(i, "evt", "*", [])
+    runs, between, lasts = [], [], []
+    for run in range(r.choice([1, 1, 2, 2, 3])):
+        steps = []
+        for k in range(r.randrange(3, 14)):
+            ops = []
+            for _ in range(r.randrange(0, 5)):
+                ops += p.op("step")
+            steps.append(ops)
+        runs.append(steps)
+        p.w = dict(tell=3, publish=3, broadcast=1, pill=1)
+        lasts.append(sum((p.op("step") for _ in range(r.randrange(0, 5))), []))
+        p.w = dict(ORDER_W)
+        between.append(sum((p.op("idle") for _ in range(r.randrange(0, 4))), []))
+    driven_multi(sc, runs, between, rng=r, last_ops=lasts)
+    finalize_main(sc)
+    return sc
+
+
+SYSN_W = dict(lifecycle=28, tell=4, publish=3, broadcast=2, pill=3, sub=14, unsub=3, fd=0, tmr=0, sgn=0, task=0, batch=0, stash=0,
+              become=0, ctx=3, retain=0, misc=1, errno=0, sleep=2, dereg=3, tb=0, thresh=0)
+
+
+def gen_sysnotif(seed, mode="loop"):
+    """C19: subscribers to the system topics (literal and catch-all regex), transitions of the other modules, loop restarts, ticks"""
+    r = random.Random(seed * 17 + 5)
+    sc = Sc(mode, "sysnotif seed=%d" % seed)
+    driven_skeleton(sc)
+    nm = r.randrange(2, 6)
+    for i in range(1, nm + 1):
+        sc.mod(i, "s%d" % i, 0, r.choice([0, 4, 6, 7, 2]))
+        sc.cb(i, "eval", "*", [], ret=1)
+        sc.cb(i, "start", "*", [], ret=1 if r.random() < 0.9 else 0)
+        sc.cb(i, "stop", "*", [])
+        sc.main.append(("reg", i))
+        if r.random() < 0.7:
+            sc.main.append(("start", i))
+    p = Prog(r, sc, SYSN_W, nm, dict(p_autofree=0.2, p_sys=1.0, task_slots=[], p_oneshot=0.05))
+    systs = p.topics_sys
+    for i in range(1, nm + 1):
+        for t in systs:
+            if r.random() < 0.45:
+                sc.main.append(("sub", i, t, r.choice([0, 0, 0, SRC_HIGH, SRC_NORM]), sc.ud()))
+        if r.random() < 0.15:
+            sc.main.append(("sub", i, sc.topic(".*"), 0, sc.ud()))
+    if r.random() < 0.3:
+        sc.main.append(("ctx_tick", r.choice([1000000, 2000000, 500000])))
+    for i in range(1, nm + 1):
+        for n in range(r.randrange(0, 3)):
+            sc.cb(i, "evt", n, sum((p.op("cb", i) for _ in range(r.randrange(0, 2))), []))
+        sc.cb(i, "evt", "*", [])
+    runs, between = [], []
+    for run in range(r.choice([1, 2, 2, 3])):
+        steps = []
+        for k in range(r.randrange(3, 12)):
+            ops = []
+            for _ in range(r.randrange(0, 3)):
+                ops += p.op("step")
+            if r.random() < 0.05:
+                ops.append(("ctx_tick", r.choice([0, 1000000, 3000000])))
+            steps.append(ops)
+        runs.append(steps)
+        between.append(sum((p.op("idle") for _ in range(r.randrange(0, 3))), []))
+    driven_multi(sc, runs, between, rng=r)
     finalize_main(sc)
     return sc
